@@ -19,6 +19,7 @@ echo "== suite WITH change"; cargo test --workspace --offline --no-fail-fast > $
 (cd /tmp/aside-$P && find . -type f | while read f; do mkdir -p $WT/$(dirname $f); mv $f $WT/$f; done); rm -rf /tmp/aside-$P
 echo "demo_without_rc=$RC0 demo_with_rc=$RC1 suite_with_rc=$RC2" | tee $OUT/confirm.txt
 if [ $RC0 -eq 0 ] && [ $RC1 -ne 0 ] && [ $RC2 -eq 0 ]; then echo CONFIRMED | tee -a $OUT/confirm.txt; else echo NOT-CONFIRMED | tee -a $OUT/confirm.txt; fi
+[ -n "${NOCHECK:-}" ] && exit 0   # NOCHECK=1: confirm only; run the checks with selftest/seed_par.sh (scratch worktree, /repo untouched)
 # run my checks against it
 cd /verif
 export MZSA_EVIDENCE_DIR=$(mktemp -d /tmp/mzsa-evid.XXXXXX)
